@@ -8,10 +8,7 @@ From Verif Require Import Proofs.QueryProofs Proofs.HeaderProofs.
 From Verif Require Proofs.KeyProofs Crypto.Sha256.
 From Coq Require Import Lia.
 From Verif Require Import Base.Bytes Base.Hex Crypto.Hmac Time.Calendar Time.Render Generated.SrcConsts Model.SigningKey Model.Validate.
-From Coq Require Import String List Bool Arith Lia.
-From Verif Require Import Base.Bytes Base.Hex Crypto.Hmac Generated.SrcConsts Model.Errors Model.Validate Model.Leakage Spec.Audit.
-From Verif Require Import Proofs.PipelineProofs Proofs.KeyProofs Proofs.StaticProofs.
-Local Open Scope string_scope.
+From Verif Require Import Proofs.PipelineProofs Proofs.KeyProofs.
 
 Theorem C08_normalize_elem_unescape :
   forall s n, normalize_elem s = Some n -> unesc_ok n.
@@ -88,8 +85,3 @@ Theorem C06_too_long :
   forall M s, (M < length s + 4)%nat <-> from_str M s = FsKeyTooLong.
 Proof. exact KeyProofs.C06_too_long. Qed.
 Print Assumptions C06_too_long.
-
-Theorem C08_site_inventory :
-  forallb (fun s => existsb (site_eqb s) audited_panic_sites) src_panic_sites = true.
-Proof. exact StaticProofs.C08_site_inventory. Qed.
-Print Assumptions C08_site_inventory.
